@@ -2262,8 +2262,18 @@ impl<'a, 'b, W: Write> SerializeTupleStruct for TupleSer<'a, 'b, W> {
                             if !comment.is_empty() {
                                 // The comment must stay on its line: every line break character
                                 // becomes a space.
-                                let sanitized = comment
-                                    .replace(['\n', '\r', '\u{0085}', '\u{2028}', '\u{2029}'], " ");
+                                // A comment runs to the end of its line and cannot carry control
+                                // characters (a NUL ends the stream for the reader): every line
+                                // break and every other control character becomes a blank.
+                                let sanitized: String = comment
+                                    .chars()
+                                    .map(|c| match c {
+                                        '\t' => c,
+                                        '\u{2028}' | '\u{2029}' | '\u{FEFF}' => ' ',
+                                        c if c.is_control() => ' ',
+                                        c => c,
+                                    })
+                                    .collect();
                                 self.ser.pending_inline_comment = Some(sanitized);
                             }
                             // Serialize the inner value as-is. Complex values will ignore the comment (it will be cleared).
